@@ -119,7 +119,31 @@ pub fn run(ctx: &Ctx) -> Value {
         tw.emit(ev("nth", json!({"y": y, "m": m, "wd": w, "k": k, "route": "panicking"}), || json!(odn(crate::guard(|| NaiveDate::from_weekday_of_month(y, m, wd_of(w), k)).ok()))));
         counts[5] += 2;
     }}}}
-    for y in [i32::MIN, -262_144, -262_143, -1, 0, 1900, 2023, 2024, 262_142, 262_143, i32::MAX] { for m in 1..=12u32 {
+    // whole years elapsed: every pair of month-days around the leap day (and around the year end) in leap and common years, both orders -
+    // the anniversary test is a comparison of (month, day), for which 29 February lies strictly between 28 February and 1 March
+    {
+        let mds = [(2u32, 27u32), (2, 28), (2, 29), (3, 1), (3, 2), (12, 31), (1, 1), (1, 2)];
+        let ys = [2019, 2020, 2023, 2024, 1900, 2000, -4, -1, 0];
+        for &ya in &ys { for &yb in &ys { for &(ma, da) in &mds { for &(mb, db) in &mds {
+            if ctx.quick() && !(ma == 2 || mb == 2 || ya == yb) && rng.chance(2, 3) { continue; }
+            let (Some(a), Some(b)) = (NaiveDate::from_ymd_opt(ya, ma, da), NaiveDate::from_ymd_opt(yb, mb, db)) else { continue };
+            tw.emit(ev("years_since", json!({"a": dn(a), "b": dn(b)}), || json!(a.years_since(b).map(|y| y as i64).unwrap_or(-1))));
+            counts[3] += 1;
+        } } } }
+    }
+    // month lengths: every century class on both sides of year 0 (the leap rule by 4 / 100 / 400 on negative years), the range ends and beyond
+    let mut month_years: Vec<i32> = vec![i32::MIN, -262_144, -262_143, -1, 0, 1900, 2023, 2024, 262_142, 262_143, i32::MAX];
+    for c in -8..=8 { month_years.extend([c * 100, c * 100 + 4, c * 100 - 4, c * 100 + 1]); }
+    month_years.extend([-196, -296, -396, -262_100, -262_000, 262_000, 262_100]);
+    for y in month_years { for m in 1..=12u32 {
+        if m != 2 && (y % 100 == 1 || y % 100 == -99) { continue; }
+        if let Some(d) = NaiveDate::from_ymd_opt(y, m, 1 + (y.rem_euclid(27)) as u32) {
+            // Datelike::num_days_in_month through every implementor
+            let n = dn(d);
+            tw.emit(ev("misc", json!({"n": n, "route": "NaiveDateTime"}), || { let x = d.and_time(mk_time_any(1, 0)); let (ce, yy) = x.year_ce(); json!({"quarter": x.quarter(), "ce": [ce, yy], "ndim": x.num_days_in_month(), "leap": d.leap_year()}) }));
+            tw.emit(ev("misc", json!({"n": n, "route": "DateTime<Utc>"}), || { let x = d.and_time(mk_time_any(1, 0)).and_utc(); let (ce, yy) = x.year_ce(); json!({"quarter": x.quarter(), "ce": [ce, yy], "ndim": x.num_days_in_month(), "leap": d.leap_year()}) }));
+            tw.emit(ev("misc", json!({"n": n}), || { let (ce, yy) = d.year_ce(); json!({"quarter": d.quarter(), "ce": [ce, yy], "ndim": d.num_days_in_month(), "leap": d.leap_year()}) }));
+        }
         tw.emit(ev("month_days", json!({"y": y, "m": m}), || json!(Month::from_u32(m).unwrap().num_days(y).map(|x| x as i64).unwrap_or(-1))));
     }}
     // the same operations through DateTime<FixedOffset>: they must act on the WALL CLOCK (judged by DateTimeTz.tla). The lattice makes
